@@ -626,7 +626,7 @@ Proof.
     split; [exact (rt_grows _ _ G A)|exact (pi_grows _ _ G B)]. }
   destruct (if (n_next_peers n3 <=? now)%Z then _ else _) as [n4 fx4]. cbn [fst] in H4.
   pose proof (reconnect_step_inv salts now n4 H4) as H5. destruct (reconnect_step salts now n4) as [n5 fx5]. cbn [fst] in *.
-  destruct (n_next_own_reset n5 <=? now)%Z; exact H5.
+  destruct (negb (c_hkfault (n_cfg n5)) && (n_next_own_reset n5 <=? now)%Z); exact H5.
 Qed.
 
 Theorem step_inv : forall salts now n e, (0 < now)%Z -> INV n -> INV (fst (step salts now n e)).
@@ -680,10 +680,10 @@ Qed.
 (* non-vacuity: a reachable state (node B after A's ping and peng) whose table does select a next hop *)
 Definition cA : ncfg := {| c_num := 1; c_addr := 1001; c_peer_timeout := 300; c_keepalive := None; c_switch_timeout := 300;
   c_learning := false; c_broadcast := false; c_tap := false; c_claims := [([10;0;1;0], 24)]; c_key := 7; c_trusted := [7];
-  c_algos := {| a_list := [(1, 1)]; a_plain := false |} |}.
+  c_algos := {| a_list := [(1, 1)]; a_plain := false |}; c_hkfault := false |}.
 Definition cB : ncfg := {| c_num := 2; c_addr := 1002; c_peer_timeout := 300; c_keepalive := None; c_switch_timeout := 300;
   c_learning := false; c_broadcast := false; c_tap := false; c_claims := [([10;0;2;0], 24)]; c_key := 7; c_trusted := [7];
-  c_algos := {| a_list := [(1, 1)]; a_plain := false |} |}.
+  c_algos := {| a_list := [(1, 1)]; a_plain := false |}; c_hkfault := false |}.
 Definition first_send (fx : list effect) : wire := match fx with XSend _ w :: _ => w | _ => WEmpty end.
 Definition salts : list (N * N) := [(salt_key 1 1002, 11); (salt_key 2 1001, 22)].
 Definition ex_evs : list (Z * event) :=
